@@ -37,6 +37,10 @@ val map : ('a1 -> 'a2) -> 'a1 list -> 'a2 list
 
 val flat_map : ('a1 -> 'a2 list) -> 'a1 list -> 'a2 list
 
+val existsb : ('a1 -> bool) -> 'a1 list -> bool
+
+val forallb : ('a1 -> bool) -> 'a1 list -> bool
+
 val filter : ('a1 -> bool) -> 'a1 list -> 'a1 list
 
 val combine : 'a1 list -> 'a2 list -> ('a1 * 'a2) list
@@ -480,5 +484,9 @@ val mk_cfg : nat -> registry -> rxrow list -> envcfg
 val op_find : z list -> z list
 
 val op_sem : z list -> z list
+
+val dec_comparand : comparand dec
+
+val op_cmp : z list -> z list
 
 val dispatch : z list -> z list
